@@ -2389,4 +2389,23 @@ pub mod verif {
     ) -> crate::Stream {
         crate::Stream::new(io, crate::stream::ActiveStreamCounter::default())
     }
+
+    /// The smart-dial ranking (`connection::pool::dial_ranker::rank_dials`) applied to plain
+    /// addresses: returns the scheduled (delay, address) list in output order.
+    pub fn rank_addrs(
+        addrs: Vec<libp2p_core::Multiaddr>,
+    ) -> Vec<(std::time::Duration, libp2p_core::Multiaddr)> {
+        use futures::FutureExt;
+        let dials = addrs
+            .into_iter()
+            .map(|addr| crate::connection::pool::concurrent_dial::PendingDial {
+                addr,
+                fut: futures::future::pending().boxed(),
+            })
+            .collect();
+        crate::connection::pool::dial_ranker::rank_dials(dials)
+            .into_iter()
+            .map(|(d, p)| (d, p.addr))
+            .collect()
+    }
 }
